@@ -389,3 +389,12 @@ mod kani {
         }
     }
 }
+
+// Verification hooks (compiled only with `--cfg mini_moka_verif`).
+#[cfg(mini_moka_verif)]
+impl FrequencySketch {
+    /// (sample_size, table_mask, table, size)
+    pub(crate) fn verif_state(&self) -> (u32, u32, &[u64], u32) {
+        (self.sample_size, self.table_mask, &self.table, self.size)
+    }
+}
